@@ -810,6 +810,16 @@ func (c *checker) checkTaskEvents(x *execRun, who string, k int, name string, in
 				break
 			}
 		}
+		// an event that says "recovered" while the directive fails with that very failure does not match what happened
+		if cnt[EmTaskErrorRecovered] > 0 && x.err != nil && errors.Is(x.err, x.errOf(kind, id, 0)) && !x.d.SharedErr {
+			c.add("C18", "task-outcome-events", "%s emitter %d: task %s emitted TaskErrorRecovered, yet the directive returned that task's error %v", who, k, name, x.err)
+		}
+		if cnt[EmTaskPanicRecovered] > 0 && x.err != nil {
+			var pe *cff.PanicError
+			if errors.As(x.err, &pe) && panicEq(pe.Value, x.panicVal(kind, id, 0)) {
+				c.add("C18", "task-outcome-events", "%s emitter %d: task %s emitted TaskPanicRecovered, yet the directive returned that task's panic as its error", who, k, name)
+			}
+		}
 		if cnt[EmTaskDone] != 1 {
 			c.add("C18", "task-done-count", "%s emitter %d: task %s was invoked but received %d TaskDone events: %v", who, k, name, cnt[EmTaskDone], evs)
 		}
